@@ -94,7 +94,7 @@ def cases(run):
              [(1, 9, True), (2, 6, True), (3, 2, True), (3, 5, False), (4, 2, False)]
     EXHAUSTIVE_NOTE = ("every exon layout with " + ", ".join(
         f"{k} exon(s) of length 1..{m}" + (" [every window start<end over span+-1 and three empty windows, with and without expand]" if w else
-                                          " [no window + 6 random windows]")
+                                          " [no window + 3 random windows, each with and without expand]")
         for k, m, w in scopes) + "; gaps 0/1/2 bp; strands + and -; all 3^k frame vectors")
     seen = set()
     for k, m, allwin in scopes:
